@@ -126,6 +126,17 @@ struct FV // void-result twin
   }
 };
 
+// catchers that handle nothing: exception_catch(F, Rethrow) behaves exactly like F (functor ids with fid % 5 == 2 in `fn:`
+// specs): whatever F throws must pass through the adaptor to the caller of the slot / the emission
+struct RethrowI
+{
+  int operator()() const { throw; }
+};
+struct RethrowV
+{
+  void operator()() const { throw; }
+};
+
 // over-aligned twins (functor ids with fid % 4 == 3 in `fn:` specs): a slot must store, copy and call a functor
 // type with an extended alignment requirement at a suitably aligned address
 inline void check_aligned(const void* p, std::size_t al)
@@ -839,6 +850,14 @@ struct Interp
     if (k == "fn" && p.size() == 2)
     {
       int fid = std::atoi(p[1].c_str());
+      if (fid % 5 == 2)
+      {
+        if constexpr (isV)
+          dst = SlotV(sigc::exception_catch(FV(fid), RethrowV()));
+        else
+          dst = SlotI(sigc::exception_catch(F(fid), RethrowI()));
+        return 0;
+      }
       if (fid % 4 == 3)
       {
         if constexpr (isV)
